@@ -90,7 +90,7 @@ impl Curve {
 
             // look at all job costs in the sliding window and keep track of total cost
             let mut total_cost = Service::none();
-            for (i, k) in window.iter().enumerate() {
+            for (i, k) in window.iter().rev().enumerate() {
                 total_cost += *k;
                 if cost_of.len() <= i {
                     // we have not yet seen (i + 1) costs in a row -> first sample
